@@ -357,7 +357,8 @@ def envelope(r, depth=0, maxdep=2, cwt=True, p_dep=0.3, sev_bias=None, uniq="", 
     pl = {}
     for i in range(r.choice([0, 0, 1, 2, 3])):
         name = "#" + rstr(r, tricky=False)[:12] + uniq + str(i)
-        pl[name] = rhex(r)
+        # payload sizes also beyond the 2-byte length header (65536 -> 5-byte bstr head), rarely: they are expensive
+        pl[name] = rhex(r, r.choice([65535, 65536, 70000])) if r.random() < 0.01 else rhex(r)
     if pl:
         env["suit-integrated-payloads"] = pl
     if depth < maxdep and r.random() < p_dep:
